@@ -99,6 +99,7 @@ type closure struct {
 }
 
 type Exec struct {
+	madeVars      map[types.Object]*types.Var // hidden 'allocated here' flags of local slice variables
 	visitedVars   []*types.Var // ghost visited sets of the enclosing range-over-map loops
 	patAbs        bool
 	splitEnds     map[*State][]*State
@@ -989,6 +990,7 @@ func (x *Exec) execAssign(st *State, s *ast.AssignStmt) {
 		}
 	}
 	for i, l := range s.Lhs {
+		x.noteMade(st, l, s, i)
 		if id, ok := l.(*ast.Ident); ok && s.Tok == token.DEFINE {
 			if x.eng.info.Defs[id] != nil {
 				x.define(st, id, vals[i])
@@ -997,6 +999,51 @@ func (x *Exec) execAssign(st *State, s *ast.AssignStmt) {
 		}
 		x.assignTo(st, l, vals[i])
 	}
+}
+
+// noteMade keeps, for every local slice variable, a hidden boolean "its current
+// value was allocated by this function activation" (assigned directly from
+// make or a composite literal); spec: madehere(v). Any other assignment clears
+// it. The hidden variable lives in the environment, so merges and loop havoc
+// treat it like the variable itself.
+func (x *Exec) noteMade(st *State, l ast.Expr, s *ast.AssignStmt, i int) {
+	id, ok := unparen(l).(*ast.Ident)
+	if !ok || id.Name == "_" {
+		return
+	}
+	obj := x.eng.info.Defs[id]
+	if obj == nil {
+		obj = x.eng.info.Uses[id]
+	}
+	v, isVar := obj.(*types.Var)
+	if !isVar || v.IsField() || v.Parent() == x.eng.pkg.Types.Scope() {
+		return
+	}
+	if _, isSl := v.Type().Underlying().(*types.Slice); !isSl {
+		return
+	}
+	made := false
+	if len(s.Rhs) == len(s.Lhs) {
+		switch r := unparen(s.Rhs[i]).(type) {
+		case *ast.CallExpr:
+			if fid, ok := unparen(r.Fun).(*ast.Ident); ok && fid.Name == "make" {
+				if _, isB := x.eng.info.Uses[fid].(*types.Builtin); isB {
+					made = true
+				}
+			}
+		case *ast.CompositeLit:
+			made = true
+		}
+	}
+	if x.madeVars == nil {
+		x.madeVars = map[types.Object]*types.Var{}
+	}
+	hv := x.madeVars[v]
+	if hv == nil {
+		hv = types.NewVar(v.Pos(), x.eng.pkg.Types, "made$"+v.Name(), types.Typ[types.Bool])
+		x.madeVars[v] = hv
+	}
+	st.env[hv] = scalarV(types.Typ[types.Bool], x.b.Bool(made))
 }
 
 // assignTo stores v into the lvalue l.
@@ -1933,6 +1980,9 @@ func (x *Exec) havocLoopTargets(st *State, spec *LoopSpec, body ast.Node, extra 
 		nv := x.freshValue(o.Type(), o.Name())
 		x.assumeWellFormed(st, nv)
 		st.env[o] = nv
+		if hv := x.madeVars[o]; hv != nil {
+			st.env[hv] = scalarV(types.Typ[types.Bool], x.b.Fresh("made."+o.Name(), BoolSort))
+		}
 	}
 	if fi.heapAll {
 		x.havocHeap(st, "loop", nil)
